@@ -65,7 +65,16 @@ func runBCE(repo string, c Config) ([]bceSite, error) {
 		if !filepath.IsAbs(f) {
 			f = filepath.Join(repo, f)
 		}
-		sites = append(sites, bceSite{filepath.Clean(f), ln, col, m[4]})
+		f = filepath.Clean(f)
+		// bounds checks inside generic standard-library code instantiated by the module (slices.Sort → zsortordered.go)
+		// are the library's, not the module's: only files of the repository are the module's obligations
+		if rel, err := filepath.Rel(repo, f); err != nil || strings.HasPrefix(rel, "..") {
+			continue
+		}
+		if _, err := os.Stat(f); err != nil {
+			continue
+		}
+		sites = append(sites, bceSite{f, ln, col, m[4]})
 	}
 	return sites, nil
 }
@@ -316,8 +325,14 @@ func enclosingModuleCall(pk *packages.Package, file *ast.File, s bceSite, p *Pro
 			id = f.Sel
 		}
 		if id != nil {
-			if fn, ok := pk.TypesInfo.Uses[id].(*types.Func); ok && fn.Pkg() != nil && strings.HasPrefix(fn.Pkg().Path(), modulePath) {
-				name = fn.Name()
+			if fn, ok := pk.TypesInfo.Uses[id].(*types.Func); ok && fn.Pkg() != nil {
+				if strings.HasPrefix(fn.Pkg().Path(), modulePath) {
+					name = fn.Name()
+				} else if name == "" {
+					// an inlined function of another package (bytes.Buffer.Bytes → b.buf[b.off:]): that package's own
+					// invariant, not an index expression of the module
+					name = fn.Pkg().Path() + "." + fn.Name() + " (library code inlined here)"
+				}
 			}
 		}
 		return true
